@@ -378,5 +378,6 @@ def write_known(crates):
         if kind in ('lib', 'bin'):
             out[kind] = sorted(n for n, f in c.fns.items() if not f.is_closure)
             out[kind + '_sigs'] = {n: f.j.get('sig', '') for n, f in sorted(c.fns.items()) if not f.is_closure}
+            out[kind + '_vis'] = {n: ('Public' if str(f.j.get('vis', '')).startswith('Public') else 'Restricted') for n, f in sorted(c.fns.items()) if not f.is_closure}
     json.dump(out, open(KNOWN_FILE, 'w'), indent=0)
     return out
